@@ -160,6 +160,21 @@ def recursive_families():
         for kind in ("prim", "leaf", "both"): fams.append(("rec-node-%s-o%d" % (kind, order), node_pair(order, kind)))
     return fams
 
+def release_families():
+    """three releases of a crate c (all define c::Foo) over two releases of a crate d (both define d::Bar): the third member
+    differs from the first two through the same nested same-path pair; every order of the three members"""
+    import itertools
+    fams = []
+    for perm in itertools.permutations(range(3)):
+        def mk(eng, perm=perm):
+            reg = [prim("U8"), prim("U16"), comp(["d", "Bar"], [fld("x", 0, "u8")]), comp(["d", "Bar"], [fld("x", 0, "u8"), fld("y", 0, "u8")])]
+            members = [comp(["c", "Foo"], [fld("q", 3, "Bar"), fld("p", 1, "u16")]), comp(["c", "Foo"], [fld("q", 3, "Bar"), fld("p", 0, "u8")]), comp(["c", "Foo"], [fld("q", 2, "Bar"), fld("p", 0, "u8")])]
+            for k in perm: reg.append(members[k])
+            reg.append(comp(["c", "H"], [fld("a", 4, "Foo"), fld("b", 5, "Foo"), fld("c", 6, "Foo")]))
+            return reg
+        fams.append(("three-releases-%s" % "".join(map(str, perm)), mk))
+    return fams
+
 def generic_families():
     """same-path generic definitions: instantiations of one definition (must merge faithfully) and two definitions"""
     fams = []
@@ -217,7 +232,7 @@ def families(eng, tier, seed):
         fams.append(run_family("corpus-%s-reversed" % n, (lambda n: lambda eng: permute(C[n], list(reversed(range(len(C[n]))))))(n), tier))
     for ename, efn in edits():
         for order in (0, 1): fams.append(run_family("edit-%s-o%d" % (ename, order), edit_family(ename, efn, order), tier))
-    for n, mk in recursive_families() + generic_families(): fams.append(run_family(n, mk, tier))
+    for n, mk in recursive_families() + generic_families() + release_families(): fams.append(run_family(n, mk, tier))
     if tier == "thorough":
         # pairs of shape edits on the second member (the first edit of a pair may mask or unmask the second)
         E = edits()
